@@ -56,9 +56,14 @@ def form : List Col → List (Option Datum) → Nat → Bytes
   | _ :: cs, none :: vs, o => form cs vs o
   | _, _, _ => []
 
-/-- bit `b` of bitmap byte `j`: attribute 8j+b is present -/
+/-- the byte with bits x0 (LSB) … x7 -/
+def bits8 (x0 x1 x2 x3 x4 x5 x6 x7 : Bool) : Nat :=
+  x0.toNat + 2 * x1.toNat + 4 * x2.toNat + 8 * x3.toNat + 16 * x4.toNat + 32 * x5.toNat + 64 * x6.toNat + 128 * x7.toNat
+
+/-- bitmap byte `j`: bit `b` set iff attribute 8j+b is present -/
 def bitmapByte (bits : List Bool) (j : Nat) : Nat :=
-  ((List.range 8).map fun b => if bits.getD (8 * j + b) false then 2 ^ b else 0).sum
+  let x (b : Nat) := bits.getD (8 * j + b) false
+  bits8 (x 0) (x 1) (x 2) (x 3) (x 4) (x 5) (x 6) (x 7)
 
 /-- t_bits: one bit per stored attribute, set = present, LSB first; unused bits of the last byte are 0 -/
 def encBitmap (bits : List Bool) : Bytes :=
